@@ -185,6 +185,13 @@ class NPProxy:
                 return _np.asarray(obj, dtype=object, **kw)
             raise
 
+    def pad(self, a, *args, **kw):
+        # trot2 pads a float rotation and then writes the translation into it: keep the array able to hold Terms
+        if _symbolic_active() and kw.get('mode', 'constant') == 'constant' and 'constant_values' not in kw:
+            r = _np.pad(_objarr(a), *args, **kw)
+            return r
+        return _np.pad(a, *args, **kw)
+
     def isscalar(self, x):
         return isinstance(x, Term) or _np.isscalar(x)
 
@@ -290,6 +297,56 @@ def _float_shim(x=0.0):
     return float(x)
 
 
+def _proved_zero(c, e):
+    sv = z3.Solver()
+    sv.set('timeout', 1000)
+    sv.add(*c.assumptions)
+    sv.add(*c.path)
+    sv.add(*c.div_guards)
+    sv.add(e != 0)
+    return str(sv.check()) == 'unsat'
+
+
+def logm_planar(A):
+    """Model of scipy.linalg.logm (documented contract: the principal matrix logarithm) for the only inputs the library
+    passes: SO(2) and SE(2) matrices.  The rotation structure of the argument is proved on the current path (else the call
+    is outside the encoding); the result is the closed form  log [[c,-s],[s,c]] = [[0,-th],[th,0]], th = atan2(s, c),
+    and for SE(2) the translation part V(th)^-1 t.  Validated against the real LAPACK routine by the translator-validation
+    stage.  The half-turn (eigenvalue -1, where the principal logarithm is not defined) is excluded by a guard."""
+    A = _np.asarray(A, dtype=object)
+    n = A.shape[0]
+    if A.shape not in ((2, 2), (3, 3)):
+        raise NotEncodable('scipy.linalg.logm of a %s matrix' % (A.shape,))
+    c = ctx()
+    co, si = Term.lift(A[0, 0]), Term.lift(A[1, 0])
+    if c.concolic:
+        fl = _np.array([[float(getattr(v, 'val', v)) for v in row] for row in A])
+        L = _np.real(__import__('scipy').linalg.logm(fl))
+        return _np.array([[Term(z3.RealVal(0), None, float(v)) for v in row] for row in L], dtype=object)
+    ok = _proved_zero(c, Term.lift(A[1, 1]).e - co.e) and _proved_zero(c, Term.lift(A[0, 1]).e + si.e) and \
+        _proved_zero(c, co.e * co.e + si.e * si.e - 1)
+    if n == 3:
+        ok = ok and all(isinstance(v, (int, float)) or Term.lift(v).const is not None for v in A[2, :]) and \
+            [float(getattr(Term.lift(v), 'const', v)) for v in A[2, :]] == [0.0, 0.0, 1.0]
+    if not ok:
+        raise NotEncodable('scipy.linalg.logm: argument not proved to be an SO(2)/SE(2) matrix on this path')
+    if (co == -1):
+        raise NotEncodable('scipy.linalg.logm at the half turn (principal logarithm undefined)')
+    th = _atan2(si, co)
+    L = _np.empty((n, n), dtype=object)
+    L.fill(0)
+    L[0, 1], L[1, 0] = -th, th
+    if n == 3:
+        tx, ty = A[0, 2], A[1, 2]
+        if (co == 1):
+            L[0, 2], L[1, 2] = tx, ty
+        else:
+            hh = th * si / (2 * (1 - co))
+            L[0, 2] = hh * tx + th / 2 * ty
+            L[1, 2] = -th / 2 * tx + hh * ty
+    return L
+
+
 _installed = False
 
 
@@ -330,7 +387,7 @@ def install():
 
         def logm(self, A, *a, **kw):
             if has_term(A) or (_symbolic_active() and getattr(A, 'dtype', None) == object):
-                raise NotEncodable('scipy.linalg.logm (LAPACK Schur decomposition)')
+                return logm_planar(A)
             return _scipy.linalg.logm(A, *a, **kw)
 
     class _ScipyProxy:
@@ -345,9 +402,10 @@ def install():
 
 STUBS = [
     "math.{sin,cos,tan,sqrt,atan2,acos,asin,atan,exp,log}: real functions axiomatised (DESIGN 3.4)",
-    "np.{zeros,ones,eye,identity}: object arrays of exact ints while symbolic",
+    "np.{zeros,ones,eye,identity,pad}: object arrays of exact ints while symbolic",
     "np.linalg.{norm,det,inv,matrix_power}: sqrt-of-squares / cofactor / adjugate / repeated product",
     "np.{allclose,isclose,clip,all,mod,isscalar,array,asarray}: Term-aware equivalents",
     "sympy.{sin,cos,sqrt,Expr}, sympy.Matrix.det: dispatch on Term",
     "quaternion.float: identity on Term",
+    "scipy.linalg.logm: closed-form principal logarithm for arguments proved SO(2)/SE(2) on the path (half turn excluded); other arguments not encodable",
 ]
